@@ -674,7 +674,10 @@ func (vc *VC) selectField(env *Env, v Term, t types.Type, name string) (Term, ty
 			cur = vc.load(env.st, FldPtr(cur, idx), ft)
 			if !env.inQuant {
 				// type invariant of memory: every cell holds a well-formed value of its Go type
-				vc.q.Assert(vc.wfAssume(env.st, cur, ft, 2))
+				// (gated by the state's reachability: the value term is merged over paths, and an allocation id of another,
+				// mutually exclusive path may coincide with one of this path - an ungated fact about "the object this points
+				// to" then contradicted the facts of the other path's allocation and made that path unreachable in the model)
+				vc.q.Assert(Implies(env.st.reach, vc.wfAssume(env.st, cur, ft, 2)))
 			}
 			ct = ft
 			continue
